@@ -13,7 +13,8 @@ LEVEL_TEXT = ("On the attribute-store model (objects with their own __dict__, li
               "parent/children assignments, comparing every read, every object's own dictionary and the link structure.")
 LEVEL_NOTE = ("After the fix: commit for D7. Instance-data names only: names that resolve on the class (separator, properties, "
               "methods) are the link's own by Python's lookup order. Cyclic target chains are outside the model (fuel). Trusted: Lean "
-              "kernel, standard axioms; the mirror lean/Anytree/Model/Attr.lean; the extractor for the name lists.")
+              "kernel, standard axioms; the mirror lean/Anytree/Model/Attr.lean; the extractor for the name lists."
+              " Class-level attributes of user subclasses of the link class (ordinary lookup answers before anything is forwarded) are outside the attribute-store model: reads of such a name are decided by a driver-level walk (Drv.getClassAware), compared with /repo, not proved.")
 THEOREMS = [
     ("Anytree.Props.C20.link_read_step", "full"),
     ("Anytree.Props.C20.link_write_step", "full"),
@@ -101,6 +102,8 @@ def generate(tier, rng):
                 ops.append({"op": "link", "t": t, "kw": kw})
                 if userclass and rng.random() < 0.4:
                     ops[-1]["cls"] = "user"          # a link of a user subclass that has a class attribute `kind`
+                elif rng.random() < 0.12:
+                    ops[-1]["cls"] = "prop"          # a user link class whose `target` is a property
                 links.add(n)
                 final[n] = final[t]
                 n += 1
